@@ -23,6 +23,7 @@ EN = "internal/logql/logqlengine/engine.go"
 PC = "internal/logql/logqlengine/precondition.go"
 AL = "internal/logql/logqlengine/aggregated_labels.go"
 LS = "internal/logql/logqlengine/label_set.go"
+SA = "internal/logql/logqlengine/sampler.go"
 LM = "internal/logql/logqlengine/logqlmetric/logqlmetric.go"
 BD = "internal/logql/logqlengine/logqlmetric/build.go"
 BO = "internal/logql/logqlengine/logqlmetric/bin_op.go"
@@ -125,6 +126,10 @@ M = [
  ("N-3", [], [(DL, "\ti.buf.Reset()\n", "\ti.buf.Reset()\n\ti.buf.Grow(4096)\n")], "NEUTRAL: buffer pre-grown"),
  ("N-4", [], [(ES, "\tdefer func() {\n\t\t_ = iter.Close()\n\t}()\n\treturn groupEntries(iter)", "\tdefer func() {\n\t\t_ = iter.Close()\n\t\t_ = iter.Close()\n\t}()\n\treturn groupEntries(iter)")], "NEUTRAL: closing twice"),
  ("N-5", [], [(ES, "\tresult := maps.Values(streams)\n", "\tresult := maps.Values(streams)\n\tslices.SortFunc(result, func(a, b lokiapi.Stream) int { return cmp.Compare(len(a.Values), len(b.Values)) })\n")], "NEUTRAL: streams pre-sorted"),
+ ("E-1", ["C10", "C18"], [(EN, "\ttracer trace.Tracer\n}\n", "\ttracer trace.Tracer\n\n\tgroupSets sync.Map\n}\n"), (EN, "import (\n", "import (\n\t\"sync\"\n"),
+   (SA, "import (\n", "import (\n\t\"fmt\"\n"),
+   (SA, "\t\treturn newSampleIterator(iter, expr)\n", "\t\tsi, err := newSampleIterator(iter, expr)\n\t\tif err != nil {\n\t\t\treturn nil, err\n\t\t}\n\t\tkey := fmt.Sprint(qrange.Sel.Matchers)\n\t\tif c, ok := e.groupSets.Load(key); ok {\n\t\t\tg := c.([2]map[string]struct{})\n\t\t\tsi.by, si.without = g[0], g[1]\n\t\t} else {\n\t\t\te.groupSets.Store(key, [2]map[string]struct{}{si.by, si.without})\n\t\t}\n\t\treturn si, nil\n")],
+  "Engine-level memo of a range aggregation's grouping sets per selector: shows only when one long-lived Engine evaluates a differently grouped query over the same selection first (Variant.Warmup)"),
 ]
 
 
